@@ -247,7 +247,7 @@ func init() {
 
 	// ------------------------------------------------------------------ C02
 	register("C02", func(c *engine.Ctx) {
-		c.Rule = "random structured schemas (tree fragment, plus formats) with schema-directed VALID documents (boundary values of every constraint, optional properties present or absent, null where allowed, nested objects and arrays); every document the reference calls valid must be accepted and every non-empty declared value must re-appear unchanged, at the same place, in json.Marshal of the decoded value. The broad random stream (all features, mutated documents) additionally ties model and implementation. Distinct = distinct (stream, verdicts, document shape)."
+		c.Rule = "random structured schemas (tree fragment, plus formats) with schema-directed VALID documents (boundary values of every constraint, optional properties present or absent, null where allowed, nested objects and arrays); every document the reference calls valid must be accepted and every non-empty declared value must re-appear unchanged, at the same place, in json.Marshal of the decoded value. Near-duplicates: pairs of schema nodes whose Go type names collide (sibling properties, definitions, definition vs property, array items) and whose schemas differ in exactly one keyword (24 perturbations: format, type, each bound, required, enum members, items, default, nullable, annotation only, identical), both orders, documents valid for the one and for the other at both positions. The broad random stream (all features, mutated documents) additionally ties model and implementation. Distinct = distinct (stream, verdicts, document shape)."
 		c.Proofs([]string{"GJS.Props.C02"}, []string{
 			"GJS.Props.C02.prim_roundtrip", "GJS.Props.C02.validators_only_reject_on_constraints",
 			"GJS.Props.C02.numeric_accepts_valid_float", "GJS.Props.C02.string_accepts_valid_ascii", "GJS.Props.C02.array_accepts_valid",
@@ -271,10 +271,12 @@ func init() {
 			root := g.Root("")
 			pcs = append(pcs, baseCase("c02-broad", root, g.Docs(root, 12)))
 		}
+		// near-duplicate schemas under one Go type name (see neardup.go)
+		pcs = append(pcs, nearDupCases(c, "c02-near-duplicates")...)
 		res := runCases(c, pcs)
 		fails := 0
 		for _, r := range res {
-			if r.RunsJ == nil || r.Case.Stream != "c02-valid" {
+			if r.RunsJ == nil || (r.Case.Stream != "c02-valid" && r.Case.Stream != "c02-near-duplicates") {
 				continue
 			}
 			for i := range r.DocJSON {
@@ -295,7 +297,7 @@ func init() {
 					}
 					continue
 				}
-				doc := core.CanonValue(r.Case.Docs[i])
+				doc := core.CanonValue(pruneUndeclared(r.Case.Schema.(sgen.M), r.Case.Schema.(sgen.M), r.Case.Docs[i], 0))
 				out, err := core.ParseCanon(real.Canon)
 				if err != nil {
 					continue
@@ -456,3 +458,49 @@ func toAnyS(xs []string) []any {
 }
 
 var _ = strings.Contains
+
+// pruneUndeclared removes, at object positions with declared properties and no additionalProperties, the
+// keys the schema does not declare (the generated struct has no field for them; C02 speaks of declared values).
+func pruneUndeclared(root, s sgen.M, v any, depth int) any {
+	if depth > 12 || s == nil {
+		return v
+	}
+	if ref, ok := s["$ref"].(string); ok {
+		for _, kw := range []string{"$defs", "definitions"} {
+			if defs, ok := root[kw].(sgen.M); ok {
+				if d, ok := defs[ref[strings.LastIndex(ref, "/")+1:]].(sgen.M); ok {
+					return pruneUndeclared(root, d, v, depth+1)
+				}
+			}
+		}
+		return v
+	}
+	switch t := v.(type) {
+	case sgen.M:
+		props, ok := s["properties"].(sgen.M)
+		if !ok || len(props) == 0 {
+			return v
+		}
+		if _, has := s["additionalProperties"]; has {
+			return v
+		}
+		out := sgen.M{}
+		for k, x := range t {
+			if ps, declared := props[k].(sgen.M); declared {
+				out[k] = pruneUndeclared(root, ps, x, depth+1)
+			}
+		}
+		return out
+	case []any:
+		items, ok := s["items"].(sgen.M)
+		if !ok {
+			return v
+		}
+		out := make([]any, len(t))
+		for i, x := range t {
+			out[i] = pruneUndeclared(root, items, x, depth+1)
+		}
+		return out
+	}
+	return v
+}
